@@ -168,15 +168,21 @@ def obligations():
     v, vs, vd = qobj("value")
 
     def setup(ex, ctx):
-        ctx.assume(M.d_wf(vd), M.v_wf(vs), M.v_real(vs))
+        # no restriction on the value: complex, infinite, NaN and symbolic scale factors are all in scope
+        ctx.assume(M.d_wf(vd), M.v_wf(vs))
         return [v], {}, None
 
     def post(ex, ctx, out, info):
         dimless = z3.Or(M.v_is_any(vs), M.d_anycls(vd), M.d_is_dimensionless(M.d_erase_angle(vd)))
         if out[0] == "return":
-            yield "returns=>the-scale-factor-of-a-dimensionless-quantity", z3.And(ex.znum(out[1]) == M.Val.re(vs), dimless)
+            r = out[1]
+            if z3.is_expr(r) and r.sort() == M.Val:  # float inf/-inf/nan, represented by the extended value
+                yield "returns-non-finite=>it-is-the-(non-finite)-scale-factor", z3.And(r == vs, M.v_kind(vs) != M.FIN, M.v_kind(vs) != M.SYMB)
+            else:
+                yield "returns=>the-value-is-real-and-the-result-is-the-scale-factor(n*1==value)", z3.And(M.v_real(vs), ex.znum(r) == M.Val.re(vs))
+            yield "returns=>the-quantity-is-dimensionless", dimless
         else:
-            yield "raises=>value-is-dimensional", z3.Not(dimless)
+            yield "raises=>value-is-dimensional-or-has-no-float(complex/symbolic)", z3.Or(z3.Not(dimless), z3.And(M.v_kind(vs) == M.FIN, M.Val.im(vs) != 0), M.v_kind(vs) == M.SYMB)
 
     verify_function(ex, "convert_to_float", setup, post)
     execs.append(ex)
